@@ -4,6 +4,64 @@ import os
 from collections import defaultdict, deque
 
 
+class LazyBodies:
+    """def path -> parsed JSON body, parsed on first access (the fact files are large)."""
+
+    def __init__(self, path):
+        self._raw = {}
+        self._parsed = {}
+        self._file = {}
+        with open(path) as fh:
+            for line in fh:
+                # every line starts with {"def":"<path>","dk":...,"file":"<file>"
+                i = line.index('","dk":')
+                d = json.loads(line[7:i + 1])
+                self._raw[d] = line
+                j = line.find('"file":"', i)
+                k = line.find('"', j + 8)
+                self._file[d] = line[j + 8:k]
+
+    def __contains__(self, k):
+        return k in self._raw
+
+    def __len__(self):
+        return len(self._raw)
+
+    def __iter__(self):
+        return iter(self._raw)
+
+    def keys(self):
+        return self._raw.keys()
+
+    def __getitem__(self, k):
+        v = self._parsed.get(k)
+        if v is None:
+            v = json.loads(self._raw[k])
+            self._parsed[k] = v
+        return v
+
+    def get(self, k, default=None):
+        return self[k] if k in self._raw else default
+
+    def items(self):
+        for k in self._raw:
+            yield k, self[k]
+
+    def values(self):
+        for k in self._raw:
+            yield self[k]
+
+    def file_of(self, k):
+        return self._file[k]
+
+    def in_file(self, suffix):
+        return [k for k, f in self._file.items() if f.endswith(suffix)]
+
+    def mentioning(self, *needles):
+        """Keys of bodies whose raw fact line contains every needle (cheap pre-filter before parsing)."""
+        return [k for k, l in self._raw.items() if all(n in l for n in needles)]
+
+
 class DB:
     def __init__(self, d):
         self.dir = d
@@ -17,19 +75,13 @@ class DB:
     @property
     def hir(self):
         if self._hir is None:
-            self._hir = {}
-            for l in open(os.path.join(self.dir, "hir.jsonl")):
-                o = json.loads(l)
-                self._hir[o["def"]] = o
+            self._hir = LazyBodies(os.path.join(self.dir, "hir.jsonl"))
         return self._hir
 
     @property
     def mir(self):
         if self._mir is None:
-            self._mir = {}
-            for l in open(os.path.join(self.dir, "mir.jsonl")):
-                o = json.loads(l)
-                self._mir[o["def"]] = o
+            self._mir = LazyBodies(os.path.join(self.dir, "mir.jsonl"))
         return self._mir
 
     @property
@@ -53,17 +105,18 @@ class DB:
         return None
 
     def hir_in(self, file_suffix):
-        return [b for b in self.hir.values() if b["file"].endswith(file_suffix)]
+        return [self.hir[k] for k in self.hir.in_file(file_suffix)]
 
     def mir_in(self, file_suffix):
-        return [b for b in self.mir.values() if b["file"].endswith(file_suffix)]
+        return [self.mir[k] for k in self.mir.in_file(file_suffix)]
 
     def closures_of(self, parent):
         if self._closure_children is None:
             self._closure_children = defaultdict(list)
-            for b in self.mir.values():
-                if b["dk"] == "Closure":
-                    self._closure_children[b["parent"]].append(b["def"])
+            for k in self.mir.keys():
+                i = k.find("::{closure#")
+                if i >= 0:
+                    self._closure_children[k[:i]].append(k)
         return self._closure_children.get(parent, [])
 
     def where(self, body, line=None):
